@@ -234,7 +234,9 @@ func c19Text() []*c19Fn {
 			nw := pick(g.rng, []string{"", "X", "日本", "ab", "ba", old, old + old, "--", "é"})
 			return c19Args(vS(s), vS(old), vS(nw), vI(g.small(-1, 4)))
 		},
-		func(c *c19Call) c19Want { return wantV(vS(strings.Replace(aS(c, 0), aS(c, 1), aS(c, 2), int(aI(c, 3))))) }))
+		func(c *c19Call) c19Want {
+			return wantV(vS(strings.Replace(aS(c, 0), aS(c, 1), aS(c, 2), int(aI(c, 3)))))
+		}))
 
 	// substr(s, lower, upper)
 	f := add(c19Mk("text", "substr", "", []c19Kind{S, I, I},
@@ -615,11 +617,15 @@ func c19Math() []*c19Fn {
 			func(c *c19Call) c19Want { return wantV(vF(fn(int(aI(c, 0)), aF(c, 1)))) }))
 	}
 	add(c19Mk("math", "ldexp", "", []c19Kind{F, I},
-		func(g *c19G) c19Call { return c19Args(vF(g.float()), vI(pick(g.rng, []int64{0, 1, -1, 10, -10, 1023, 1024, -1074, -1075, 2000, -2000, g.small(-60, 60)}))) },
+		func(g *c19G) c19Call {
+			return c19Args(vF(g.float()), vI(pick(g.rng, []int64{0, 1, -1, 10, -10, 1023, 1024, -1074, -1075, 2000, -2000, g.small(-60, 60)})))
+		},
 		func(c *c19Call) c19Want { return wantV(vF(math.Ldexp(aF(c, 0), int(aI(c, 1))))) }))
 	add(c19Mk("math", "nan", "", []c19Kind{}, func(g *c19G) c19Call { return c19Args() }, func(c *c19Call) c19Want { return wantV(vF(math.NaN())) }))
 	add(c19Mk("math", "pow10", "", []c19Kind{I},
-		func(g *c19G) c19Call { return c19Args(vI(pick(g.rng, []int64{0, 1, -1, 2, 22, 23, 308, 309, -323, -324, -400, 400, g.small(-330, 310)}))) },
+		func(g *c19G) c19Call {
+			return c19Args(vI(pick(g.rng, []int64{0, 1, -1, 2, 22, 23, 308, 309, -323, -324, -400, 400, g.small(-330, 310)})))
+		},
 		func(c *c19Call) c19Want { return wantV(vF(math.Pow10(int(aI(c, 0))))) }))
 	for _, f := range t {
 		f.noLimit = true
@@ -1072,7 +1078,9 @@ func c19Times() []*c19Fn {
 	add(c19Mk("times", "duration_nanoseconds", "", []c19Kind{I}, genD, func(c *c19Call) c19Want { return wantV(vI(time.Duration(aI(c, 0)).Nanoseconds())) }))
 	add(c19Mk("times", "duration_string", "", []c19Kind{I}, genD, func(c *c19Call) c19Want { return wantV(vS(time.Duration(aI(c, 0)).String())) }))
 	add(c19Mk("times", "month_string", "", []c19Kind{I},
-		func(g *c19G) c19Call { return c19Args(vI(pick(g.rng, []int64{1, 2, 3, 4, 5, 6, 7, 8, 9, 10, 11, 12, 0, 13, -1, g.small(1, 12)}))) },
+		func(g *c19G) c19Call {
+			return c19Args(vI(pick(g.rng, []int64{1, 2, 3, 4, 5, 6, 7, 8, 9, 10, 11, 12, 0, 13, -1, g.small(1, 12)})))
+		},
 		func(c *c19Call) c19Want { return wantV(vS(time.Month(aI(c, 0)).String())) }))
 
 	locNames := append([]string{"UTC", "Local", "", "Nowhere/X", "../etc/passwd", "utc", "Asia/Tokyo", "America/New_York", "Europe/Berlin"}, c19TZNames...)
@@ -1142,7 +1150,9 @@ func c19Times() []*c19Fn {
 			p := g.rng.Perm(9) // three different offsets
 			return c19Args(vT(g.time()), vI(int64(p[0]-4)), vI(int64(p[1]-4)), vI(int64(p[2]-4)*pick(g.rng, []int64{1, 1, 7, 31})))
 		},
-		func(c *c19Call) c19Want { return wantV(vT(aT(c, 0).AddDate(int(aI(c, 1)), int(aI(c, 2)), int(aI(c, 3))))) }))
+		func(c *c19Call) c19Want {
+			return wantV(vT(aT(c, 0).AddDate(int(aI(c, 1)), int(aI(c, 2)), int(aI(c, 3)))))
+		}))
 	genTT := func(g *c19G) c19Call {
 		a := g.time()
 		b := g.time()
